@@ -108,6 +108,11 @@ func (r *pubRun) absParty(didStr string) string {
 	return "?"
 }
 
+// envFailure recognises the lock time-outs of go-stoabs (1 s in nuts-node) that CPU starvation of the sandbox causes.
+func envFailure(msg string) bool {
+	return strings.Contains(msg, "unable to obtain BBolt") || strings.Contains(msg, "context deadline exceeded")
+}
+
 func sameRefs(a, b []hash.SHA256Hash) bool {
 	if len(a) != len(b) {
 		return false
@@ -196,6 +201,9 @@ func (r *pubRun) exec() (err error) {
 			cred, ierr := w.NI.vcr.Issuer().Issue(audit.TestContext(), tpl, issuer.CredentialOptions{Publish: true, Public: st.flag("public")})
 			got, tx, n := r.take(mark)
 			ev := map[string]any{"ev": "issue", "s": st.str("s"), "public": st.flag("public"), "ok": ierr == nil, "participants": []string{}, "key": ""}
+			if ierr != nil && envFailure(ierr.Error()) {
+				return ierr
+			}
 			switch {
 			case ierr != nil && exp.OK:
 				r.violate("publish-unexpected-error", "vc", ierr.Error())
@@ -227,6 +235,9 @@ func (r *pubRun) exec() (err error) {
 						for _, cl := range calls {
 							msg += cl.Err + ";"
 						}
+						if envFailure(msg) || (rerr != nil && envFailure(rerr.Error())) {
+							return fmt.Errorf("storage time-out: %s %v", msg, rerr)
+						}
 						r.violate("own-output-rejected", "vc", fmt.Sprintf("the second node does not hold the published credential (Resolve: %v; receiver: %s)", rerr, msg))
 					}
 					r.lastCred = cred
@@ -242,6 +253,9 @@ func (r *pubRun) exec() (err error) {
 			rev, rerr := w.NI.vcr.Issuer().Revoke(audit.TestContext(), *r.lastCred.ID)
 			got, tx, n := r.take(mark)
 			ev := map[string]any{"ev": "revoke", "ok": rerr == nil, "participants": []string{}, "key": ""}
+			if rerr != nil && envFailure(rerr.Error()) {
+				return rerr
+			}
 			if rerr != nil {
 				r.violate("publish-unexpected-error", "rev", rerr.Error())
 			} else if n != 1 {
@@ -261,6 +275,9 @@ func (r *pubRun) exec() (err error) {
 					msg := ""
 					for _, cl := range calls {
 						msg += cl.Err + ";"
+					}
+					if envFailure(msg) {
+						return fmt.Errorf("storage time-out: %s", msg)
 					}
 					r.violate("own-output-rejected", "rev", "the second node does not register the published revocation: "+msg)
 				}
